@@ -834,8 +834,18 @@ function constSortKey(value: Const): string {
   return `${typeof value}:${String(value)}`;
 }
 
+// localeCompare without a locale follows the locale of the process (LANG / LC_ALL), and a digest or a
+// printed schema must not: the order is pinned to "en" (what it has been on most machines), with
+// code units deciding between strings that collate as equal
+function compareStable(a: string, b: string): number {
+  const byCollation = a.localeCompare(b, "en");
+  if (byCollation !== 0) {
+    return byCollation;
+  }
+  return a < b ? -1 : a > b ? 1 : 0;
+}
 function compareConst(a: Const, b: Const): number {
-  return constSortKey(a).localeCompare(constSortKey(b));
+  return compareStable(constSortKey(a), constSortKey(b));
 }
 
 function hash256Const(ctx: Hash256Context, value: Const): void {
@@ -1654,7 +1664,7 @@ function stableJsonSchemaDefinitionString(value: JSONSchema7Definition): string 
     return `[${value.map(stableJsonSchemaDefinitionString).join(",")}]`;
   }
 
-  const entries = Object.entries(value).sort(([a], [b]) => a.localeCompare(b));
+  const entries = Object.entries(value).sort(([a], [b]) => compareStable(a, b));
   return `{${entries
     .map(
       ([key, inner]) =>
